@@ -2,6 +2,8 @@ package mon
 
 import (
 	"crypto/sha256"
+
+	"google.golang.org/protobuf/proto"
 	"fmt"
 	"strings"
 	"time"
@@ -97,6 +99,42 @@ func c06Feed(r *core.Rand, tag int) *gtfsrt.FeedMessage {
 	}
 	return m
 }
+
+// c06FeedLarge builds a message of n entities (size-threshold sweep) whose entity kinds are drawn per
+// position: stale unassigned NYCT trips and duplicate elevator alerts (entities an extension skips),
+// id-bearing vehicle positions, assigned NYCT trips. Two such feeds have different kinds at the same index.
+func c06FeedLarge(r *core.Rand, tag, n int) *gtfsrt.FeedMessage {
+	m := &gtfsrt.FeedMessage{Header: &gtfsrt.FeedHeader{GtfsRealtimeVersion: rgen.S("1.0"), Timestamp: rgen.U64(c16FeedTs)}}
+	for i := 0; i < n; i++ {
+		e := &gtfsrt.FeedEntity{Id: rgen.S(fmt.Sprintf("big%d-%d", tag, i))}
+		switch k := r.Intn(20); {
+		case k < 7: // stale unassigned NYCT trip
+			d := &gtfsrt.TripDescriptor{TripId: rgen.S(fmt.Sprintf("%06d_A..N%d", (i*37)%600000, i)), RouteId: rgen.S("A"), StartDate: rgen.S("20231114")}
+			c16SetNyct(d, "false", "NORTH", "")
+			e.TripUpdate = &gtfsrt.TripUpdate{Trip: d, StopTimeUpdate: c16Stops("dep<", "none", r)}
+		case k < 14: // vehicle position with an id
+			vp := &gtfsrt.VehiclePosition{Vehicle: &gtfsrt.VehicleDescriptor{Id: rgen.S(fmt.Sprintf("bigv-%d-%d", tag, i))}}
+			rgen.FillVehiclePosition(r, vp, 9000+i)
+			e.Vehicle = vp
+		case k < 17: // assigned NYCT trip
+			d := &gtfsrt.TripDescriptor{TripId: rgen.S(fmt.Sprintf("%06d_6..S%d", (i*41)%600000, i)), RouteId: rgen.S("6"), StartDate: rgen.S("20231114")}
+			c16SetNyct(d, "true", "SOUTH", fmt.Sprintf("BIGTRAIN-%d-%d", tag, i))
+			e.TripUpdate = &gtfsrt.TripUpdate{Trip: d, StopTimeUpdate: c16Stops("dep>", "actual", r)}
+		case k < 19: // elevator alerts, few groups, many duplicates
+			st := c17Stations[i%3]
+			e.Id = rgen.S(fmt.Sprintf("%s%s#EL%d", st, core.Pick(r, []string{"N", "S"}), 200+i%4))
+			e.Alert = &gtfsrt.Alert{InformedEntity: []*gtfsrt.EntitySelector{{StopId: rgen.S(st)}}}
+		default: // timetabled no-service alert
+			sel := &gtfsrt.EntitySelector{RouteId: rgen.S("C")}
+			proto.SetExtension(sel, gtfsrt.E_MercuryEntitySelector, &gtfsrt.MercuryEntitySelector{SortOrder: rgen.S("MTASBWY:C:3")})
+			e.Alert = &gtfsrt.Alert{InformedEntity: []*gtfsrt.EntitySelector{sel}}
+		}
+		m.Entity = append(m.Entity, e)
+	}
+	return m
+}
+
+var c06LargeSizes = []int{255, 256, 257, 300, 1023, 1024, 1025, 1100}
 
 func c06Counts(tier string) (static, realtime int) {
 	if tier == "thorough" {
@@ -327,8 +365,12 @@ func c06Realtime(c *core.Ctx) {
 	}
 	var bufs [3]*core.ROBuf
 	var msgs [3]*gtfsrt.FeedMessage
+	large := c.Index%8 == 0
 	for i := range bufs {
 		msgs[i] = c06Feed(r, c.Index*3+i)
+		if large {
+			msgs[i] = c06FeedLarge(r, c.Index*3+i, c06LargeSizes[(c.Index/8+i)%len(c06LargeSizes)])
+		}
 		rb, err := core.NewROBuf(rgen.Marshal(msgs[i]))
 		if err != nil {
 			c.Note("harness_error", err.Error())
@@ -350,6 +392,9 @@ func c06Realtime(c *core.Ctx) {
 		if !c.Thorough() && ci >= 6 && (ci-6)%4 != c.Index%4 {
 			continue
 		}
+		if large && !(ci == 0 || ci == 3 || ci == 5 || (ci >= 6 && (ci-6)%7 == c.Index%7)) {
+			continue // large feeds: the configurations that skip entities, and a rotating nyctalerts one
+		}
 		zone := ny
 		if ci%3 == 1 {
 			zone = nil
@@ -365,6 +410,9 @@ func c06Realtime(c *core.Ctx) {
 			if i == 0 && err == nil {
 				c.Shape(fmt.Sprintf("realtime cfg=%s vehicles=%d alerts=%d trips=%d", cfg.name, len(rt.Vehicles), len(rt.Alerts), len(rt.Trips)))
 			}
+		}
+		if large {
+			c.Feature("large-feeds-size-sweep")
 		}
 		digest = append(digest, cfg.name+"="+shortHash(base[0].ord+base[1].ord+base[2].ord)+"/"+shortHash(base[0].norm+base[1].norm+base[2].norm))
 		detail := func(extra map[string]any) map[string]any {
